@@ -9,6 +9,7 @@ import (
 
 	ipfslog "berty.tech/go-ipfs-log"
 	"berty.tech/go-ipfs-log/iface"
+	"berty.tech/go-orbit-db/utils"
 	"berty.tech/go-orbit-db/verifhook"
 	cid "github.com/ipfs/go-cid"
 	"github.com/libp2p/go-libp2p/core/event"
@@ -335,15 +336,12 @@ func (r *replicator) processHash(ctx context.Context, item processItem) ([]cid.C
 		// every encoding of an entry (and a block store may answer for any CID
 		// that carries the multihash of a block it holds), so the same signed
 		// entry could otherwise be merged again and again under new addresses
-		canonical, err := r.store.IO().Write(ctx, r.store.IPFS(), e, nil)
-		if err != nil {
-			// the check could not be made (the context has ended, the node
-			// refuses the write): that is not a verdict on the entry. The
-			// request has failed and is retried
-			return nil, fmt.Errorf("unable to check the address of entry %s: %w", e.GetHash().String(), err)
-		}
-
-		if !canonical.Equals(e.GetHash()) {
+		// (the address is computed, nothing is written: the check cannot fail
+		// because of the node or the context - a request that fails is retried,
+		// a verdict is final -, only on an entry that has no encoding, a block of
+		// a version this IO reads and does not write, which is a verdict as well)
+		canonical, aErr := utils.EntryAddress(ctx, r.store.IO(), r.store.IPFS(), e)
+		if aErr != nil || !canonical.Equals(e.GetHash()) {
 			r.logger.Warn("ignoring an entry whose content does not hash to its address", zap.String("cid", e.GetHash().String()))
 			return nil, nil
 		}
